@@ -161,6 +161,16 @@ def run(P, R):
                         and x.lineno > c.lineno and not _rebound_in_comprehension(u, x, p) \
                         and not _reassigned_between(u, p, c.lineno, x.lineno):
                     raw.append(x)
+            # ... nor handed raw to the state machine / context / commanders (they index their tables with it)
+            for x in own_nodes(u.node):
+                if isinstance(x, ast.Call) and x.lineno > c.lineno and x is not c and \
+                        any(isinstance(a, ast.Name) and a.id == p for a in x.args) and \
+                        call_text(x).startswith('self.supvisors.') and 'logger' not in call_text(x) and \
+                        'mapper.filter' not in call_text(x) and not _reassigned_between(u, p, c.lineno, x.lineno):
+                    R.fail(r7, 'raw-arg|%s|%s' % (name, call_text(x)), u.loc(x),
+                           'RPCInterface.%s resolves `%s` through mapper.filter() (nick names / stereotypes accepted) but '
+                           'then passes the raw parameter to %s: an unknown identifier is recorded / KeyError' %
+                           (name, p, call_text(x)), 'RPCInterface.%s passes only resolved identifiers on' % name)
             if not raw:
                 R.ok(r7, 'RPCInterface.%s indexes only with resolved identifiers' % name, u.loc(c))
             for x in raw:
